@@ -100,8 +100,11 @@ impl Engine for LoadEngine {
                     let d = rng.below(2);
                     let depth = rng.range(1, if tier == Tier::Thorough { 4 } else { 3 });
                     let mut target = format!("M{e}{d}:{leaf}");
+                    // the innermost compound may carry the SAME id as the asset it forwards (another type, so another key): the
+                    // error is wrapped once per level all the same (seeded change C03-g dropped the wrapper when the ids coincide)
+                    let same_id = rng.chance(1, 2);
                     for lvl in 0..depth {
-                        let cid = format!("c{k}l{lvl}");
+                        let cid = if lvl == 0 && same_id { leaf.clone() } else { format!("c{k}l{lvl}") };
                         l.push(format!("src.put {} {} {} 0", hexs(&cid), hexs("s"), hexs(&format!("{} +{target}", lvl + 1))));
                         target = format!("S{}:{cid}", lvl % 3);
                     }
@@ -139,14 +142,43 @@ impl Engine for LoadEngine {
         rec.op(lines[0].clone(), "ok");
         let mut pending: Option<(String, String, String)> = None; // (type, id, status)
         let mut bad_kinds: std::collections::BTreeMap<(String, String), String> = Default::default();
+        let mut scripts: std::collections::BTreeMap<String, String> = Default::default();
+        let mut faults_seen = false;
         for line in &lines[1..] {
             let w: Vec<&str> = line.split_whitespace().collect();
             if w[0] == "status" && w.len() == 4 { pending = Some((w[1].to_string(), unhexs(w[2]), w[3].to_string())); continue; }
             if w[0] == "src.bad" && w.len() == 4 { bad_kinds.insert((unhexs(w[1]), unhexs(w[2])), w[3].to_string()); }
             if w[0] == "src.put" && w.len() >= 4 { bad_kinds.remove(&(unhexs(w[1]), unhexs(w[2]))); }
+            if w[0] == "src.put" && w.len() >= 4 && unhexs(w[2]) == "s" { scripts.insert(unhexs(w[1]), unhexs(w[3])); }
+            if w[0].starts_with("fault.") || w[0] == "src.bad" && w.len() == 4 && unhexs(w[2]) == "s" { faults_seen = true; }
             let out = wx.op(line);
             rec.op(line.clone(), out.clone());
             rec.nontrivial = true;
+            // A compound's failure is the error its load function returned, wrapped with the compound's own id — once per level,
+            // whatever the ids are. For chains of forwarding scripts (`<n> +T:X`: the only thing that can fail is that load, and
+            // its error is handed on unchanged) the expected prefix follows from the statement alone.
+            if (w[0] == "load" || w[0] == "owned") && w.len() == 3 && w[1].starts_with('S') && out.starts_with("err ") && !faults_seen {
+                let (mut ty, mut id) = (w[1].to_string(), unhexs(w[2]));
+                let mut prefix = String::from("err ");
+                let mut levels = 0;
+                loop {
+                    prefix.push_str(&format!("in:{}/", hexs(&id)));
+                    levels += 1;
+                    if !ty.starts_with('S') || levels > 8 { break; }
+                    let toks: Vec<String> = scripts.get(&id).map(|s| s.split_whitespace().map(|x| x.to_string()).collect()).unwrap_or_default();
+                    if toks.len() == 2 && toks[0].parse::<i64>().is_ok() && toks[1].starts_with('+') {
+                        if let Some((t2, i2)) = toks[1][1..].split_once(':') { ty = t2.to_string(); id = i2.to_string(); continue; }
+                    }
+                    levels = 0; break;   // not a pure forwarding chain: no expectation
+                }
+                if levels > 0 && !ty.starts_with('S') {
+                    rec.stat(format!("load/forwarded-error-levels={levels}"));
+                    let rest = out.get(prefix.len()..).unwrap_or("");
+                    if !out.starts_with(&prefix) || rest.starts_with("in:") {
+                        rec.oracle_fail(format!("compound-error-not-wrapped-per-level `{line}` -> {out}, expected {prefix}<reason of the leaf>"));
+                    }
+                }
+            }
             match (w[0], &pending) {
                 ("load", Some((t, id, status))) if w[1] == t && unhexs(w[2]) == *id => {
                     let e: usize = t[1..2].parse().unwrap();
